@@ -1,5 +1,6 @@
 import Plotink.Proofs.C20Xml
 import Plotink.Proofs.C20Hms
+import Plotink.Proofs.C20Gen
 /-! # C20 — text helpers (`plotink/text_utils.py`)
 
 Strings are `List Char`.  `C20.escape` is the model of `xml_escape` (five sequential one-character
@@ -185,5 +186,78 @@ theorem C20_switch_ten (f64 : Rat → Rat) : formatHms f64 10 false = "10 Second
 theorem C20_ms (f64 : Rat → Rat) (ms : Rat) :
     formatHms f64 ms true = formatHms f64 (f64 (ms / 1000)) false :=
   formatHms_ms f64 ms
+
+/-! ## The same statements about the SOURCE-REGENERATED code
+
+`Gen.xml_escape` / `Gen.format_hms` are regenerated from `plotink/text_utils.py` by the translator on every run
+(`lean/Plotink/Gen/xml_escape.lean`, `format_hms.lean`).  A Python `str` is `Py.Val.str s` with `s : String`; the
+models above are over the code-point list `s.toList`.  Numbers are Python `int`s or `float`s (`Py.IsNum v q`: `v` is
+`.flt q` or an `.int` equal to `q`).  Proofs: `Proofs/C20Gen.lean`. -/
+
+/-- **bridge** `Gen.xml_escape = C20.escape`, for every string and every rounding mode (there is no arithmetic) -/
+theorem C20_gen_bridge_xml (R : Rounding) (amb : Nat) (s : String) :
+    Gen.xml_escape R amb (.str s) = .str (String.ofList (escape s.toList)) :=
+  xml_escape_bridge R amb s
+
+/-- `C20_no_special` for the regenerated code -/
+theorem C20_gen_no_special (R : Rounding) (amb : Nat) (s : String) :
+    ∃ t : String, Gen.xml_escape R amb (.str s) = .str t ∧
+      (∀ c ∈ t.toList, c ≠ '<' ∧ c ≠ '>' ∧ c ≠ '"' ∧ c ≠ '\'') ∧
+      (∀ pre post, t.toList = pre ++ '&' :: post → ∃ e ∈ entities, e <+: '&' :: post) := by
+  refine ⟨_, xml_escape_bridge R amb s, ?_⟩
+  rw [String.toList_ofList]
+  exact C20_no_special s.toList
+
+/-- `C20_roundtrip` / `C20_roundtrip_strict` for the regenerated code: the lenient decoder and the strict parser
+(element content, `"`-attribute, `'`-attribute) read the original text back from what `xml_escape` returns -/
+theorem C20_gen_roundtrip (R : Rounding) (amb : Nat) (s : String) :
+    ∃ t : String, Gen.xml_escape R amb (.str s) = .str t ∧
+      unescape t.toList = s.toList ∧ ∀ p : Place, parse p t.toList = some s.toList := by
+  refine ⟨_, xml_escape_bridge R amb s, ?_⟩
+  rw [String.toList_ofList]
+  exact ⟨C20_roundtrip s.toList, fun p => C20_roundtrip_strict p s.toList⟩
+
+/-- **bridge** `Gen.format_hms = C20.formatHms R.f64`, for every rounding mode `R` (the one float operation,
+`duration / 1000.0`, is `R.f64` of the exact quotient), over the exact value `q` of the `int`/`float` argument.
+Hypothesis: the duration that is formatted is not a negative number that rounds to zero thousandths (CPython then
+prints `-0.000`; the model has no negative zero) — true for every `q ≥ 0` in seconds. -/
+theorem C20_gen_bridge_hms (R : Rounding) (amb : Nat) (v : Py.Val) (q : Rat) (hv : Py.IsNum v q) (ms : Bool)
+    (hs : 0 ≤ (if ms then R.f64 (q / 1000) else q) ∨
+      Py.roundHE (1000 * (if ms then R.f64 (q / 1000) else q)) ≠ 0) :
+    Gen.format_hms R amb v (.bool_ ms) = .str (String.ofList (formatHms R.f64 q ms)) :=
+  format_hms_bridge R amb v q hv ms hs
+
+/-- `C20_short` for the regenerated code (seconds, `0 ≤ q < 10`) -/
+theorem C20_gen_short (R : Rounding) (amb : Nat) (v : Py.Val) (q : Rat) (hv : Py.IsNum v q) (h0 : 0 ≤ q) (h10 : q < 10) :
+    ∃ n : Nat, (n : Int) = Py.roundHE (1000 * q) ∧ n ≤ 10000 ∧ |(n : Rat) / 1000 - q| ≤ 1 / 2000 ∧
+      Gen.format_hms R amb v (.bool_ false) = .str (String.ofList
+        (natDigits (n / 1000) ++ '.' :: digitChar (n / 100 % 10) :: digitChar (n / 10 % 10) :: digitChar (n % 10) :: sSeconds)) := by
+  obtain ⟨n, hn, hle, herr, htext, _⟩ := C20_short R.f64 q h0 h10
+  refine ⟨n, hn, hle, herr, ?_⟩
+  rw [C20_gen_bridge_hms R amb v q hv false (Or.inl (by simpa using h0)), htext]
+
+/-- `C20_long` for the regenerated code (seconds, `q ≥ 10`): the three forms, chosen by the rounded value -/
+theorem C20_gen_long (R : Rounding) (amb : Nat) (v : Py.Val) (q : Rat) (hv : Py.IsNum v q) (hq : 10 ≤ q) :
+    ∃ r : Nat, (r : Int) = Py.roundHE q ∧ 10 ≤ r ∧ |(r : Rat) - q| ≤ 1 / 2 ∧
+      (r < 60 → Gen.format_hms R amb v (.bool_ false) = .str (String.ofList (two r ++ sSeconds))) ∧
+      (60 ≤ r → r < 3600 → Gen.format_hms R amb v (.bool_ false) =
+        .str (String.ofList (natDigits (r / 60) ++ ':' :: two (r % 60) ++ sMinSec))) ∧
+      (3600 ≤ r → Gen.format_hms R amb v (.bool_ false) =
+        .str (String.ofList (natDigits (r / 3600) ++ ':' :: two (r / 60 % 60) ++ ':' :: two (r % 60) ++ sHrMinSec))) := by
+  obtain ⟨r, hr, h10, herr, _, f1, f2, f3, _⟩ := C20_long R.f64 q hq
+  have hb := C20_gen_bridge_hms R amb v q hv false (Or.inl (by simp only [Bool.false_eq_true, if_false]; linarith))
+  exact ⟨r, hr, h10, herr, fun h => by rw [hb, f1 h], fun h h' => by rw [hb, f2 h h'], fun h => by rw [hb, f3 h]⟩
+
+/-- `C20_ms` for the regenerated code: a millisecond input prints what the quotient `R.f64 (ms/1000)` prints in seconds -/
+theorem C20_gen_ms (R : Rounding) (amb : Nat) (v : Py.Val) (q : Rat) (hv : Py.IsNum v q) :
+    Gen.format_hms R amb v (.bool_ true) = Gen.format_hms R amb (.flt (R.f64 (q / 1000))) (.bool_ false) :=
+  format_hms_ms R amb v q hv
+
+/-- non-vacuity: an `int` and a `float` argument meet the hypotheses; the regenerated code prints 59.5 s as `1:00 …` -/
+example : Py.IsNum (.int 75) 75 ∧ Py.IsNum (.flt (119 / 2)) (119 / 2) ∧ (10 : Rat) ≤ 119 / 2 :=
+  ⟨Or.inr ⟨75, rfl, by norm_num⟩, Or.inl rfl, by norm_num⟩
+example (R : Rounding) : Gen.format_hms R 53 (.flt (119 / 2)) (.bool_ false)
+    = .str (String.ofList "1:00 (Minutes, seconds)".toList) := by
+  rw [C20_gen_bridge_hms R 53 _ (119 / 2) (Or.inl rfl) false (Or.inl (by norm_num)), C20_carry_minute]
 
 end Plotink
